@@ -20,6 +20,7 @@ LEVEL = "exploration"
 RULE = ("random well-typed EEMS models (3-18 commands over all built-in data commands, CSV tables of 2-14 rows with int and float "
         "columns and missing cells; a ledger forces every command into the sample) x {original, reversed, k random permutations, "
         "metadata variant, extra-consumer variant}; distinct by (sorted command multiset up to 8, depth, max fan-out, table dtype mix, has-missing)")
+SCRATCH_PER_CASE = True      # no directory is used beyond the case that asked for it
 REQUIRED_COUNTERS = ["reruns_after_a_repaired_failure", "numpy_scalar_parameter_models", "fuzzy_reads_compared", "node_postconditions", "read_results_compared", "variant_runs", "shared_results_compared_bit_exact", "same_path_reruns", "netcdf_models", "csv_models", "eems2_histories"]
 
 
